@@ -11,6 +11,47 @@ use std::rc::Rc;
 
 pub type Dev = Qcow2Dev<SimIo>;
 
+/// block_on for sequential (immediate-completion) executions: every backend request
+/// completes inside its first poll, so a future that returns Pending without having been
+/// woken waits for a lock nobody will release - a self-deadlock. That is reported as a
+/// panic-like observation ("DEADLOCK") instead of parking the thread forever.
+pub fn block_on<F: std::future::Future>(fut: F) -> F::Output {
+    use std::sync::atomic::{AtomicBool, Ordering};
+    use std::sync::Arc;
+    use std::task::{Context, Poll, Wake, Waker};
+    struct Flag(AtomicBool);
+    impl Wake for Flag {
+        fn wake(self: Arc<Self>) {
+            self.0.store(true, Ordering::SeqCst);
+        }
+        fn wake_by_ref(self: &Arc<Self>) {
+            self.0.store(true, Ordering::SeqCst);
+        }
+    }
+    let flag = Arc::new(Flag(AtomicBool::new(false)));
+    let waker = Waker::from(flag.clone());
+    let mut cx = Context::from_waker(&waker);
+    let mut fut = Box::pin(fut);
+    let mut polls = 0u64;
+    loop {
+        flag.0.store(false, Ordering::SeqCst);
+        match fut.as_mut().poll(&mut cx) {
+            Poll::Ready(v) => return v,
+            Poll::Pending => {
+                polls += 1;
+                if !flag.0.load(Ordering::SeqCst) {
+                    std::mem::forget(fut);
+                    panic!("DEADLOCK: the operation waits for a lock that is never released (no backend request outstanding)");
+                }
+                if polls > 1_000_000 {
+                    std::mem::forget(fut);
+                    panic!("LIVELOCK: the operation was woken a million times without finishing");
+                }
+            }
+        }
+    }
+}
+
 #[derive(Clone, Debug, PartialEq, Eq, Hash, PartialOrd, Ord)]
 pub enum Op {
     Write { off: u64, len: usize, tag: u32 },
@@ -336,7 +377,7 @@ pub fn open_chain(sim: &Rc<RefCell<Sim>>, idx: usize, cfg: &DevCfg, backing: boo
         let io = SimIo::new(sim, idx);
         let params = cfg.params(backing, backing);
         let path = format!("sim{}", idx);
-        let (mut dev, back) = futures::executor::block_on(qcow2_rs::utils::qcow2_alloc_dev(
+        let (mut dev, back) = block_on(qcow2_rs::utils::qcow2_alloc_dev(
             std::path::Path::new(&path),
             io,
             &params,
@@ -352,7 +393,7 @@ pub fn open_chain(sim: &Rc<RefCell<Sim>>, idx: usize, cfg: &DevCfg, backing: boo
             }
         }
         if !backing {
-            futures::executor::block_on(dev.qcow2_prep_io()).map_err(|e| format!("prep_io: {e:?}"))?;
+            block_on(dev.qcow2_prep_io()).map_err(|e| format!("prep_io: {e:?}"))?;
         }
         Ok(dev)
     }));
@@ -367,7 +408,7 @@ fn open_chain_inner(sim: &Rc<RefCell<Sim>>, idx: usize, cfg: &DevCfg) -> Result<
     let params = cfg.params(true, true);
     let path = format!("sim{}", idx);
     let (mut dev, back) =
-        futures::executor::block_on(qcow2_rs::utils::qcow2_alloc_dev(std::path::Path::new(&path), io, &params))
+        block_on(qcow2_rs::utils::qcow2_alloc_dev(std::path::Path::new(&path), io, &params))
             .map_err(|e| format!("open backing: {e:?}"))?;
     if back.is_some() {
         let nfiles = sim.borrow().files.len();
@@ -428,7 +469,7 @@ impl World {
                     let (off, cnt) = self.runs.remove(*k);
                     let dev = self.dev.as_ref().unwrap();
                     let r = catch_unwind(AssertUnwindSafe(|| {
-                        futures::executor::block_on(dev.verif_free_clusters(off, cnt))
+                        block_on(dev.verif_free_clusters(off, cnt))
                     }));
                     match r {
                         Ok(Ok(())) => {
@@ -455,7 +496,7 @@ impl World {
             }
             _ => {
                 let dev = self.dev.as_ref().unwrap();
-                let r = catch_unwind(AssertUnwindSafe(|| futures::executor::block_on(run_op_async(dev, op, vsize))));
+                let r = catch_unwind(AssertUnwindSafe(|| block_on(run_op_async(dev, op, vsize))));
                 match r {
                     Ok(r) => r,
                     Err(e) => OpResult {
@@ -488,7 +529,7 @@ impl World {
         let mut out = OpResult { ok: false, err: None, panic: None, count: 0, words: vec![], alloc: None };
         {
             let dev = self.dev.as_ref().unwrap();
-            let r = catch_unwind(AssertUnwindSafe(|| futures::executor::block_on(dev.flush_meta())));
+            let r = catch_unwind(AssertUnwindSafe(|| block_on(dev.flush_meta())));
             match r {
                 Ok(Ok(())) => {}
                 Ok(Err(e)) => {
@@ -563,7 +604,7 @@ pub fn sweep(dev: &Dev, rd: &RefDisk, bs: usize, full: bool) -> Vec<Mismatch> {
             for x in b.iter_mut() {
                 *x = 0x5a;
             }
-            let res = catch_unwind(AssertUnwindSafe(|| futures::executor::block_on(dev.read_at(&mut b, off as u64))));
+            let res = catch_unwind(AssertUnwindSafe(|| block_on(dev.read_at(&mut b, off as u64))));
             let bad = match res {
                 Err(e) => Some(format!("panic: {}", panic_msg(e))),
                 Ok(Err(e)) => Some(format!("read error: {e:?}")),
